@@ -44,10 +44,29 @@ func configs14(tier string) []xplore.Config {
 	for _, w1b := range [][]wop{{{"remove", ""}}, {{"remove", ""}, {"add", ""}}} {
 		out = append(out, xplore.Config{Name: fmt.Sprintf("X=t1 W(t1)=reset || W'(t1)=%s W(t2)=upd a/b", scriptName(w1b)), Bound: bound - 1, Data: cfg14{w1: []wop{{"reset", ""}}, w2: []wop{{"upd", "a/b"}}, w1b: w1b}})
 	}
+	// a subscriber attaching at any point of a Reset (before, between the
+	// per-root steps, after): the deletes announced to the feed must cover
+	// whatever its walk showed it. Subscriptions on a/... only, so that the
+	// metadata leaves a Reset regenerates stay out of the queues.
+	for _, sc := range [][]wop{{{"reset", ""}}, {{"upd", "a/c"}, {"reset", ""}}, {{"reset", ""}, {"upd", "a/b"}}} {
+		for _, sp := range []subSpec{{target: "t1", paths: []string{"a"}, mode: pb.SubscriptionList_STREAM}, {target: "*", paths: []string{"a"}, mode: pb.SubscriptionList_STREAM}} {
+			out = append(out, xplore.Config{Name: fmt.Sprintf("attach during W(t1)=%s | %s", scriptName(sc), sp), Bound: bound,
+				Data: cfg04{writers: []writer{{"t1", sc}}, subs: []subSpec{sp}}})
+		}
+	}
 	return out
 }
 
 func run14(cfg xplore.Config, ch vrt.Chooser, trace bool) (xplore.Outcome, *vrt.Result) {
+	if d, ok := cfg.Data.(cfg04); ok {
+		d.reverse = cfg.Reverse
+		cfg.Data = d
+		return run04(cfg, ch, trace)
+	}
+	return run14x(cfg, ch, trace)
+}
+
+func run14x(cfg xplore.Config, ch vrt.Chooser, trace bool) (xplore.Outcome, *vrt.Result) {
 	d := cfg.Data.(cfg14)
 	var out xplore.Outcome
 	res := vrt.Run(ch, vrt.Options{Reverse: cfg.Reverse, Trace: trace}, func() {
@@ -88,7 +107,7 @@ func run14(cfg xplore.Config, ch vrt.Chooser, trace bool) (xplore.Outcome, *vrt.
 				doneB = true
 			})
 		}
-		vrt.Idle()
+		settle()
 		out.Nontrivial = true
 		out.Obs = fmt.Sprintf("X:%v %s | *: %s", x.status, renderLog(x.log), renderLog(all.log))
 		if len(d.w1b) > 0 {
